@@ -121,8 +121,8 @@ def try_weaken(c, rng, s, k):
 
 def try_wrap(c, rng, s, k, hw, hw_trusted):
     p = c.p
-    mech = rng.choice(['0x210a', '0x1085:x:%s' % (b'\x01' * 16).hex(), '0x2109'])
-    r = p.op('wrap %s %s %s %s 512' % (s, mech, hw, k.h))
+    mech = rng.choice(['0x210a', '0x1085:x:%s' % (b'\x01' * 16).hex()] + (['0x2109'] if k.cls == 4 else []))
+    r = p.op('wrap %s %s %s %s %d' % (s, mech, hw, k.h, 512 if k.cls == 4 else 2600))
     if r.get('rv') == '0x0':
         if not k.extr:
             c.bad('C_WrapKey succeeded on a key with CKA_EXTRACTABLE false')
@@ -169,6 +169,45 @@ def readonly_and_gates(c, rng, s, k):
             c.bad('an object with CKA_DESTROYABLE false was destroyed')
         if g == 'copyable' and p.rv('setattr %s %s 0x%x=b:1' % (s, h2, A['COPYABLE'])) == 0 and bool_attr(p, s, h2, A['COPYABLE']):
             c.bad('CKA_COPYABLE was set back to true')
+
+
+RO_BY_CLASS = [
+    # (what, creation template, [(attribute, new value, name)]): attributes PKCS#11 makes read-only once the object exists
+    ('RSA public key', '0=u:2 0x100=u:0 0x120=x:%s 0x122=x:010001 1=b:0 2=b:0' % ('c7' * 64),
+     [('0x120', 'x:' + 'd1' * 64, 'CKA_MODULUS'), ('0x122', 'x:03', 'CKA_PUBLIC_EXPONENT'), ('0x121', 'u:2048', 'CKA_MODULUS_BITS'), ('0x129', 'x:3003020100', 'CKA_PUBLIC_KEY_INFO'),
+      ('0x100', 'u:3', 'CKA_KEY_TYPE'), ('0', 'u:3', 'CKA_CLASS'), ('0x163', 'b:1', 'CKA_LOCAL'), ('0x166', 'u:0', 'CKA_KEY_GEN_MECHANISM')]),
+    ('EC public key', '0=u:2 0x100=u:3 0x180=x:06082a8648ce3d030107 0x181=x:0441%s 1=b:0 2=b:0' % ('04' + '19' * 64),
+     [('0x180', 'x:06052b81040022', 'CKA_EC_PARAMS'), ('0x181', 'x:0441' + '04' + '23' * 64, 'CKA_EC_POINT'), ('0x129', 'x:3003020100', 'CKA_PUBLIC_KEY_INFO'), ('0x100', 'u:0', 'CKA_KEY_TYPE')]),
+    ('X.509 certificate', '0=u:1 0x80=u:0 0x101=x:3000 0x11=x:3082 1=b:0 2=b:0',
+     [('0x80', 'u:1', 'CKA_CERTIFICATE_TYPE'), ('0x11', 'x:3083', 'CKA_VALUE'), ('0x101', 'x:3001', 'CKA_SUBJECT'), ('0', 'u:0', 'CKA_CLASS'), ('0x129', 'x:3003020100', 'CKA_PUBLIC_KEY_INFO')]),
+    ('DSA domain parameters', '0=u:6 0x100=u:1 0x130=x:%s 0x131=x:%s 0x132=x:%s 1=b:0 2=b:0' % ('d1' * 64, 'd2' * 20, 'd3' * 64),
+     [('0x130', 'x:' + 'e1' * 64, 'CKA_PRIME'), ('0x131', 'x:' + 'e2' * 20, 'CKA_SUBPRIME'), ('0x132', 'x:' + 'e3' * 64, 'CKA_BASE'), ('0x100', 'u:2', 'CKA_KEY_TYPE'), ('0x163', 'b:1', 'CKA_LOCAL')]),
+]
+
+
+def readonly_by_class(c, rng, s):
+    """for object classes other than secret / private keys: every attribute PKCS#11 makes read-only after creation is refused by
+    C_SetAttributeValue (alone, or next to a harmless one - which then is not applied either) and the value stays"""
+    p = c.p
+    what, tm, ros = rng.choice(RO_BY_CLASS)
+    r = p.op('create %s %s 3=x:%s' % (s, tm, b'roc'.hex()))
+    if r.get('rv') != '0x0':
+        return
+    h = r['h']
+    for (a, v, name) in rng.sample(ros, min(len(ros), 3)):
+        before = p.op('getattr %s %s %s:4096 3:64' % (s, h, a)).get('attrs')
+        pos = rng.choice(['alone', 'first', 'last'])
+        good = '3=x:%s' % ('R%04d' % rng.randrange(10000)).encode().hex()
+        item = '%s=%s' % (a, v)
+        line = item if pos == 'alone' else ('%s %s' % (item, good) if pos == 'first' else '%s %s' % (good, item))
+        rv = p.rv('setattr %s %s %s' % (s, h, line))
+        after = p.op('getattr %s %s %s:4096 3:64' % (s, h, a)).get('attrs')
+        if rv == 0:
+            c.bad('C_SetAttributeValue accepted the read-only attribute %s of a %s' % (name, what))
+            return
+        if after != before:
+            c.bad('a C_SetAttributeValue on a %s that was refused because of %s changed the object all the same' % (what, name))
+            return
 
 
 def forbidden_on_creation(c, rng, s, hbase):
@@ -340,6 +379,9 @@ def seq_attr(lib, p11drv, seed, idx):
         for _ in range(rng.randint(4, 8)):
             if c.findings:
                 break
+            if rng.random() < 0.12:
+                readonly_by_class(c, rng, s)
+                continue
             if rng.random() < 0.15:
                 k = make_rsa_priv(c, rng, s, hw)
             else:
@@ -351,7 +393,7 @@ def seq_attr(lib, p11drv, seed, idx):
             w = rng.random()
             if w < 0.35:
                 try_weaken(c, rng, s, k)
-            elif w < 0.55 and k.cls == 4:
+            elif w < 0.55 and k.cls in (3, 4):
                 try_wrap(c, rng, s, k, hw, hwt)
             elif w < 0.8:
                 readonly_and_gates(c, rng, s, k)
